@@ -49,6 +49,7 @@ def run_battery(ctx: CheckContext, analyse: Callable, root: Optional[str] = None
     same_tree = exp.get("digest") == package_digest(root)
     base_bad = {(o.rule, o.key) for o in ctx.obligations if not o.ok}
     rows = []
+    ref_bad = None
     # ---- mutants this property's check is expected to catch
     jobs: List[Tuple[str, str, bool]] = []
     for sid, props in sorted(exp.get("caught_by", {}).items()):
@@ -63,9 +64,24 @@ def run_battery(ctx: CheckContext, analyse: Callable, root: Optional[str] = None
             rows.append({"id": sid, "result": "patch file missing"})
             continue
         tmp = scratch_with_patch(root, patch)
+        on = "current tree"
+        bb = base_bad
         if tmp is None:
-            rows.append({"id": sid, "result": "skipped: patch does not apply to the current tree"})
-            continue
+            # the current tree has drifted from the one the change was written for: use the frozen reference tree
+            ref = os.path.join(VERIF, "fixtures", "reference")
+            tmp = scratch_with_patch(ref, patch) if os.path.isdir(ref) else None
+            if tmp is None:
+                rows.append({"id": sid, "result": "skipped: patch applies neither to the current nor to the reference tree"})
+                continue
+            on = "reference tree"
+            if ref_bad is None:
+                b0 = CheckContext(ctx.prop, "quick")
+                try:
+                    analyse(b0, Program(ref))
+                except AnalysisError:
+                    pass
+                ref_bad = {(o.rule, o.key) for o in b0.obligations if not o.ok}
+            bb = ref_bad
         try:
             sub = CheckContext(ctx.prop, "quick")
             err = None
@@ -73,16 +89,16 @@ def run_battery(ctx: CheckContext, analyse: Callable, root: Optional[str] = None
                 analyse(sub, Program(tmp))
             except AnalysisError as e:
                 err = str(e)
-            new_bad = [o for o in sub.obligations if not o.ok and (o.rule, o.key) not in base_bad]
+            new_bad = [o for o in sub.obligations if not o.ok and (o.rule, o.key) not in bb]
             if must_fire:
                 ok = bool(new_bad)
                 rows.append({"id": sid, "kind": "mutant", "result": "reported" if ok else ("analysis-error: " + err if err else "MISSED"),
-                             "by": sorted({o.rule for o in new_bad})[:4]})
-                if not ok and same_tree:
+                             "by": sorted({o.rule for o in new_bad})[:4], "on": on})
+                if not ok and (same_tree or on == "reference tree"):
                     ctx.error(f"battery: seeded change {sid} is no longer reported by {ctx.prop} on the reference tree")
             else:
                 ok = not new_bad and err is None
-                rows.append({"id": sid, "kind": "twin", "result": "silent" if ok else ("FALSE ALARM: " + (err or "; ".join(f"{o.rule} {o.key}" for o in new_bad[:2])))})
+                rows.append({"id": sid, "kind": "twin", "on": on, "result": "silent" if ok else ("FALSE ALARM: " + (err or "; ".join(f"{o.rule} {o.key}" for o in new_bad[:2])))})
                 if not ok:
                     ctx.error(f"battery: behaviour-preserving refactoring {sid} raises an alarm in {ctx.prop}: "
                               + (err or "; ".join(f"{o.rule} {o.key}" for o in new_bad[:2])))
